@@ -104,10 +104,12 @@ def show_result(r):
 
 class PROP(PropCheck):
     id = "C19"
-    theorems = []
+    theorems = ["C19_failure_by_value", "C19_fs_frame", "C19_fs_frame_write", "C19_queries_are_pure", "C19_create_only_if_absent",
+                "C19_write_requires_existing", "C19_append_appends_displayed_form", "C19_read_returns_contents", "C19_get_put_same",
+                "C19_get_put_other", "C19_remove_spec"]
     coq_imports = ["Obs"]
     model_targets = ["theories/Obs.vo"]
-    prop_targets = []
+    prop_targets = ["theories/Props/C19.vo"]
     harness_mode = "run"
     trusted_base = [
         "Coq 8.16.1 kernel and bytecode VM",
@@ -181,6 +183,12 @@ class PROP(PropCheck):
                 out += [self.mk([s] + list(h)) for h in hs[:3000]]
         for _ in range((250 if tier == "quick" else 15000) * scale):
             out.append(self.mk([self.gen_op(rng) for _ in range(rng.randint(3, 12 if tier == "quick" else 30))]))
+        # write sequences on one file: every ordered pair of contents, appended then overwritten (shorter after longer included)
+        for v1 in VALUES:
+            for v2 in VALUES:
+                for second in BINARY:
+                    out.append(self.mk([("FILE_CREATE", "f1"), ("FILE_APPEND", "f1", v1), (second, "f1", v2), ("FILE_READ", "f1"),
+                                        ("FILE_OVERWRITE", "f1", v1), ("FILE_READ", "f1")]))
         return out
 
     def run_impl(self, cases):
